@@ -80,6 +80,8 @@ def sym_ocs_choices(rng):
 def mrl_of(history):
     for op in history:
         if op.get('op') == 'new_file':
+            if op.get('sul'):
+                return op['sul'].get('max_record_length', 8192)
             return (op.get('kwargs') or {}).get('max_record_length', 8192)
     return 8192
 
@@ -110,3 +112,40 @@ def rejected_for_size(st):
     m = st.get('msg', '') if st else ''
     return st is not None and st.get('out') == 'exc' and (
         'cannot be shorter than 12 bytes' in m or 'cannot be less than 24' in m)
+
+
+def bump(d, k, n=1):
+    d[k] = d.get(k, 0) + n
+
+
+def new_stats(case):
+    return {'execs': 0, 'probes': {}, 'faults': {}, 'state_sigs': [], 'skipped': {},
+            'digest': digest([case['scenario'], case.get('params')]), 'seams': {}, 'nontrivial': False}
+
+
+def run(case, ex, extra_ops, stats, env=None):
+    """Execute base history + extra ops in a fresh fork; returns (scenario, result)."""
+    sc = scenario_with(case, extra_ops, env)
+    res = ex(sc)
+    stats['execs'] += 1
+    stats['seams'].update(res.get('seams') or {})
+    return sc, res
+
+
+def model_and_decode(sc, res, upto_write=None):
+    """Model of all ops that returned normally, and the strict decode of the last successful write's file."""
+    from .. import model as M, rp66
+    st = last_write(res)
+    m = M.build(sc['history'], res['steps'])
+    dec = rp66.decode_file(st['file']) if st is not None and st.get('out') == 'ok' and st.get('file') is not None else None
+    return m, dec, st
+
+
+def wop(fid, **kw):
+    op = {'op': 'write', 'fid': fid, 'path': 'out.dlis'}
+    op.update(kw)
+    return op
+
+
+def write_ops(history):
+    return [op for op in history if op.get('op') == 'write']
